@@ -2437,11 +2437,17 @@ class StdCleanuper:
     TODO: try to descibe cleanup rules.
     """
 
-    def __init__(self, prod_templates, choice_symbols, keep_symbols, squash_symbols):
+    def __init__(
+            self, prod_templates, choice_symbols, keep_symbols, squash_symbols,
+            seq_symbols=None,
+        ):
         self.prod_templates = prod_templates
         self.choice_symbols = choice_symbols
         self.keep_symbols = keep_symbols
         self.squash_symbols = squash_symbols
+        # symbols of 'ProdSequence' templates: corresponding elements are leafs,
+        # but their values are lists of complete sub-trees
+        self.seq_symbols = set() if seq_symbols is None else seq_symbols
 
     @classmethod
     def make(cls, llparser: LLParser, keep_symbols) -> Self:
@@ -2452,7 +2458,8 @@ class StdCleanuper:
         squash_symbols, choice_symbols = cls._make_squash_data(llparser)
 
         return StdCleanuper(
-            llparser.prod_templates, choice_symbols, keep_symbols, squash_symbols)
+            llparser.prod_templates, choice_symbols, keep_symbols, squash_symbols,
+            llparser._seq_symbols)
 
     @classmethod
     def _make_squash_data(cls, llparser: LLParser):
@@ -2517,6 +2524,11 @@ class StdCleanuper:
             return elem_no_squash
 
         if t_elem.is_leaf():
+            if t_elem.name in self.seq_symbols and isinstance(t_elem.value, list):
+                # elements of a sequence are complete sub-trees: clean up each
+                # of them (lists and maps inside of a sequence are converted)
+                for child_elem in t_elem.value:
+                    self._cleanup(child_elem)
             return elem_no_squash
 
         values = []
